@@ -5,7 +5,9 @@
 (* in every field, together with the number of matches and the pool         *)
 (* high-water mark.  Obs[name][year] = [filled, nm, hw, rows], a row being   *)
 (* <<startEpochSeconds, offsetMinutes, deltaMinutes, abbrev, startDateTime, *)
-(* untilDateTime>> with date tuples <<y, m, d, minutes, suffix>>.           *)
+(* untilDateTime>> with date tuples <<y, m, d, minutes, suffix>>.  The same *)
+(* judgement binds the Python reference implementation (ZoneSpecifier, hw   *)
+(* = -1: its pool accounting is a different quantity).                      *)
 EXTENDS ExtProc
 
 Obs == JsonDeserialize(IOEnv.EXTPROC_OBS)
@@ -18,7 +20,7 @@ Judge ==
     LET o == Obs[Z.name][ToString(y)]
         mrows == [k \in 1..Len(tab.rows) |-> ModelRow(tab.rows[k])]
         orows == [k \in 1..Len(o.rows) |-> ObsRow(o.rows[k])]
-        same == (o.filled = 1) = tab.filled /\ (tab.filled => (o.nm = tab.nm /\ o.hw = tab.hw /\ orows = mrows))
+        same == (o.filled = 1) = tab.filled /\ (tab.filled => (o.nm = tab.nm /\ (o.hw = -1 \/ o.hw = tab.hw) /\ orows = mrows))
     IN same \/ PrintT(ToJson([bad |-> Z.name, year |-> y, model |-> [filled |-> tab.filled, nm |-> tab.nm, hw |-> tab.hw, rows |-> mrows],
                               impl |-> [filled |-> o.filled, nm |-> o.nm, hw |-> o.hw, rows |-> orows]]))
 \* the zone's step function over [Y0, Y1], for TzSem to judge; and what was compared
